@@ -123,7 +123,22 @@ def d1_limiter(facts, rep):
         twice = any(any(q in finp and q != fp for q in fn.walk(fp)[0]) for fp in finp)
         rep.ob('D1', 'K3', fn, 'a successful try_reserve is followed by exactly one try_consume or try_release', ok and not twice,
                'the reserved message of the predecessor is neither consumed nor released (predecessor blocked forever) or both')
-    rep.floor('D1', 20, 'limiter')
+    # decrement_counter: the clamped update of my_count and the carried-over part (my_future_decrement) are both computed
+    # from the value my_count had when the decrement arrived: no read of my_count may be reachable from a write of it inside
+    # the function (a read after `my_count = 0` yields the whole delta as carry-over: the part already applied is applied twice)
+    for fn in facts.get(LIM + 'decrement_counter'):
+        acc = [x for x in member_accesses(fn, ('my_count',)) if x[2].get('cls', '').endswith('limiter_node')]
+        reads = [(pos, node) for pos, sx, node, kind in acc if kind == 'read']
+        writes = [(pos, node) for pos, sx, node, kind in acc if kind in ('write', 'rmw')]
+        if not reads or not writes:
+            raise AnalysisBroken('limiter_node::decrement_counter: my_count reads/writes not found')
+        asserts = fn.assertion_nodes()          # debug configurations: __TBB_ASSERT(my_count <= my_threshold) after the update
+        reads = [(pos, node) for pos, sx, node, kind in acc if kind == 'read' and sx not in asserts]
+        bad = [(w, r) for w, wn in writes for r, rn in reads if w != r and fn.can_reach(w, r)]
+        rep.ob('D1', 'K4', fn, 'decrement_counter computes the new count and the carried-over decrement from the old count only', not bad,
+               'my_count is read after it was overwritten in the same call: the carried-over decrement no longer excludes the part '
+               'that was applied to my_count, later puts are admitted beyond the threshold')
+    rep.floor('D1', 21, 'limiter')
 
 
 def d2_join(facts, rep):
